@@ -1,11 +1,16 @@
 import Driver.Util
 import ClairModel.Model.TarSeg
+import ClairModel.Model.RpmHeader
+import ClairModel.Model.RpmDb
 
 /-!
   Model driver of property C06.  One answer line per operation line:
 
     pnum <hex>     parseNumber on the bytes
     seg <hex>      findSegments on the bytes presented as the tar stream
+    rpmhdr <hex>   rpm Header.Parse + Info.Load on the header blob
+    bdb <hex>      rpm/bdb PackageDB.Parse + AllHeaders (size and byte sum of every header handed out)
+    ndb <hex>      rpm/ndb PackageDB.Parse + AllHeaders
 -/
 namespace Driver.C06
 open ClairModel
@@ -19,6 +24,28 @@ def doSeg (bs : List UInt8) : String :=
   | .ok ss => s!"ok reads={r.reads} n={ss.length} {renderSegs ss}".trimRight
   | .error e => (if e.isFormat then "err:format" else "err:io") ++ s!" reads={r.reads}"
 
+def doRpmHdr (bs : List UInt8) : String :=
+  match RpmHeader.run bs with
+  | .parseErr => "err:parse"
+  | .loadErr => "err:load"
+  | .panic => "panic"
+  | .ok i =>
+    s!"ok name={Driver.hex i.name} ver={Driver.hex i.version} rel={Driver.hex i.release} epoch={i.epoch} arch={Driver.hex i.arch} src={Driver.hex i.source} mod={Driver.hex i.module} digest={Driver.hex i.digest} algo={i.digestAlgo} sig={i.sigLen}"
+
+def byteSum (bs : List UInt8) : Nat := bs.foldl (fun a c => a + c.toNat) 0
+
+def renderRopes (file : List UInt8) (rs : List RpmDb.Rope) : String :=
+  let parts := rs.map fun r =>
+    let c := RpmDb.Rope.content r file
+    if c.length == RpmDb.Rope.size r then s!"{RpmDb.Rope.size r}:{byteSum c}" else s!"{RpmDb.Rope.size r}:short"
+  (s!"ok n={rs.length} " ++ " ".intercalate parts).trimRight
+
+def renderDb (file : List UInt8) (r : Option (Option (List RpmDb.Rope))) : String :=
+  match r with
+  | none => "err:parse"
+  | some none => "err:headers"
+  | some (some rs) => renderRopes file rs
+
 def stepLine (s : Unit) (l : String) : Unit × String :=
   if l == "reset" then (s, "ok") else
   match Driver.words l with
@@ -30,6 +57,18 @@ def stepLine (s : Unit) (l : String) : Unit × String :=
     match Driver.unhex h with
     | none => (s, "bad-op")
     | some bs => (s, doSeg bs)
+  | ["bdb", h] =>
+    match Driver.unhex h with
+    | none => (s, "bad-op")
+    | some bs => (s, renderDb bs (RpmDb.Bdb.allHeaders bs))
+  | ["ndb", h] =>
+    match Driver.unhex h with
+    | none => (s, "bad-op")
+    | some bs => (s, renderDb bs (RpmDb.Ndb.allHeaders bs))
+  | ["rpmhdr", h] =>
+    match Driver.unhex h with
+    | none => (s, "bad-op")
+    | some bs => (s, doRpmHdr bs)
   | _ => (s, "bad-op")
 
 end Driver.C06
